@@ -5,6 +5,8 @@ Driver for C20.  Names are hex-encoded byte strings (`-` = empty name is written
   `fields <allow|except> <names> <doc keys> <emptyDoc 0|1> <isObject 0|1>`
       -> `verbatim` | `ok <positions (in the stored document) of the surviving fields, in output order>`
   `pipe <pipes ;-separated: F:<except 0|1>:<names +-separated> | O>` -> `none` | `ok <allowList 0|1> <names>`
+  `parse <tokens ,-separated: u<hex>|q<hex>>` (the lexer tokens after a `|`; u = unquoted, q = quoted)
+      -> `err` | `ok <allowList 0|1> <names> rest=<number of tokens left>`        parser.parsePipeFields
 -/
 open SV SV.Proto SV.Fields
 
@@ -21,6 +23,12 @@ def parsePipe (s : String) : Option (Option (List (List Nat) × Bool)) :=
   | ["F", e, ns] => do pure (some ((← names? ns "+"), (← bool? e)))
   | _ => none
 
+def parseTok (s : String) : Option Tok :=
+  match s.toList with
+  | 'u' :: r => (name? (String.ofList r)).map fun bs => ⟨bs.map Char.ofNat, false⟩
+  | 'q' :: r => (name? (String.ofList r)).map fun bs => ⟨bs.map Char.ofNat, true⟩
+  | _ => none
+
 def step (line : String) : String :=
   match fields line with
   | ["fields", mode, ns, keys, e, o] =>
@@ -33,6 +41,14 @@ def step (line : String) : String :=
         | .encoded fs => s!"ok {fmtNats (fs.map (·.tag))}"
       else "bad-op"
     | _, _, _, _ => "bad-op"
+  | ["parse", ts] =>
+    match (splitList ts).mapM parseTok with
+    | some toks =>
+      match parsePipeFields toks with
+      | none => "err"
+      | some (except, names, rest) =>
+        s!"ok {fmtBool (!except)} {fmtList (fun (n : List Char) => fmtName (n.map Char.toNat)) names} rest={rest.length}"
+    | none => "bad-op"
   | ["pipe", ps] =>
     match (splitList ps ";").mapM parsePipe with
     | some pipes =>
